@@ -369,6 +369,13 @@ func (s *Sim) fundV1(ctx *blockCtx, txn *types.Transaction, ts *consensus.V1Tran
 
 func (s *Sim) payOutV1(ctx *blockCtx, txn *types.Transaction, amount types.Currency) {
 	// amount is distributed over outputs and 0..2 miner fees
+	// an explicit miner fee in about half of the transactions (the split below rarely yields a fee-sized part)
+	if s.Rng.Intn(2) == 0 && amount.Cmp(types.Siacoins(4)) > 0 {
+		fee := types.NewCurrency64(1 + uint64(s.Rng.Int63n(2_000_000_000))).Mul64(1 + uint64(s.Rng.Int63n(1_000_000_000)))
+		txn.MinerFees = append(txn.MinerFees, fee)
+		ctx.fees = ctx.fees.Add(fee)
+		amount = amount.Sub(fee)
+	}
 	parts := s.split(amount, 2+s.Rng.Intn(3))
 	nfee := 0
 	if len(parts) > 1 {
@@ -745,9 +752,15 @@ func (s *Sim) fundV2(ctx *blockCtx, p *v2Pending) (types.Currency, bool) {
 }
 
 func (s *Sim) payOutV2(ctx *blockCtx, p *v2Pending, amount types.Currency) {
+	if s.Rng.Intn(2) == 0 && amount.Cmp(types.Siacoins(4)) > 0 && p.txn.MinerFee.IsZero() {
+		fee := types.NewCurrency64(1 + uint64(s.Rng.Int63n(2_000_000_000))).Mul64(1 + uint64(s.Rng.Int63n(1_000_000_000)))
+		p.txn.MinerFee = fee
+		ctx.fees = ctx.fees.Add(fee)
+		amount = amount.Sub(fee)
+	}
 	parts := s.split(amount, 2+s.Rng.Intn(3))
 	for i, q := range parts {
-		if i == 0 && len(parts) > 1 && q.Cmp(types.Siacoins(10)) < 0 && s.Rng.Intn(2) == 0 {
+		if i == 0 && len(parts) > 1 && q.Cmp(types.Siacoins(10)) < 0 && s.Rng.Intn(2) == 0 && p.txn.MinerFee.IsZero() {
 			p.txn.MinerFee = q
 			ctx.fees = ctx.fees.Add(q)
 			continue
